@@ -167,6 +167,9 @@ def _main(args, pid, tier, hmod, seed, t_start, workdir):
         if r["status"] == "REFUTED" and r["counterexample"] and r["counterexample"]["inputs"] is not None:
             jobs.append({"cond": c.id, "inputs": r["counterexample"]["inputs"]})
             tags.append(("cex", c.id))
+        elif r.get("candidate") and r.get("counterexample") and r["counterexample"]["inputs"] is not None:
+            jobs.append({"cond": c.id, "inputs": r["counterexample"]["inputs"]})
+            tags.append(("cand", c.id))
         wl = r.get("witnesses", [])
         cap = len(wl) if tier == "thorough" else min(len(wl), 12)
         for w in wl[:cap]:
@@ -187,6 +190,15 @@ def _main(args, pid, tier, hmod, seed, t_start, workdir):
                                                  + str(results[cid]["counterexample"]["detail"])})
                 results[cid]["status"] = "INCONCLUSIVE"
                 results[cid]["messages"].append("counterexample did not reproduce -> model/harness imprecision")
+        elif kind == "cand":
+            # candidate from an unconfirmed path: a violation only if the real stack reproduces it; silence otherwise (the condition stays INCONCLUSIVE)
+            if not rr["ok"]:
+                results[cid]["status"] = "REFUTED"
+                violations.append({"cond": cid, "inputs": job["inputs"], "detail": rr["detail"],
+                                   "symbolic_detail": results[cid]["counterexample"]["detail"],
+                                   "found_by": "solver (path not confirmed by CrossHair; reproduced on the real stack)"})
+            else:
+                results[cid]["messages"].append("candidate counterexample from an unconfirmed path did not reproduce")
         else:
             validated += 1
             if not rr["ok"]:
